@@ -706,15 +706,38 @@ def clause_class(clause):
 
 
 def judge(ctx, pid, checks, events, meta, label):
-    rej = validate(ctx, events, checks, label=label)
+    """label: sub-check name, or a function event -> name (several drivers in one TLC run)"""
+    lab = label if callable(label) else (lambda ev: label)
+    rej = validate(ctx, events, checks, label=label if isinstance(label, str) else "mixed")
     for r in rej:
         ev = events[r["line"] - 1]
         m = meta.get((ev["tid"], ev["seq"]), meta.get(ev["tid"]))
-        ctx.violation(f"{pid}/{label}/{ev['fn']}/{clause_class(r['clause'])}",
+        ctx.violation(f"{pid}/{lab(ev)}/{ev['fn']}/{clause_class(r['clause'])}",
                       {"kind": "event", "event": ev, "meta": m, "checks": list(checks)},
                       f"trace {ev['tid']} (call {ev['seq']}: {ev['fn']} {ev['opts']}) rejected by SessionTrace "
-                      f"at clause {r['clause']}", subcheck=label)
+                      f"at clause {r['clause']}", subcheck=lab(ev))
     return rej
+
+
+def note_failure(ctx, pid, label, fn_name, tid, obs, m):
+    """The drivers only make calls that are valid by construction.  A clean rejection (ValueError /
+    NotImplementedError) is C35's business and only counted; anything else means date() did not
+    return the copy the statement is about."""
+    cls = type(obs.exc).__name__
+    ctx.extra.setdefault("failed_calls", {})[tid] = repr(obs.exc)[:200]
+    if isinstance(obs.exc, (ValueError, NotImplementedError)):
+        ctx.count("calls_rejected")
+        return
+    ctx.violation(f"{pid}/{label}/{fn_name}/no-result/{cls}", {"kind": "event", "event": obs.event, "meta": m},
+                  f"{tid}: the call raised {cls}: {obs.exc}", subcheck=label)
+
+
+def require_results(ctx, events, frac=0.5):
+    """vacuity guard: the drivers' calls are valid by construction, most of them must return"""
+    from .harness import MachineryError
+    ok = sum(1 for e in events if e["outcome"] == "ok")
+    if len(events) and ok < frac * len(events):
+        raise MachineryError(f"only {ok} of {len(events)} driver calls returned: nothing can be claimed")
 
 
 def session_cfg(ctx, name, *, max_calls, fns, rec_modes, nopts, track, start0="MdStartBasic", start1="MdStartBasic",
@@ -785,6 +808,12 @@ def decorate(ts, seed, node_md=True, mut_md=True, shuffle=True, edge_md=False):
         md, md_off = tskit.pack_bytes([pj.validate_and_encode_row({"id": f"i{i}"}) for i in range(ind.num_rows)])
         ind.set_columns(flags=flags, location=np.array(loc, dtype=float), location_offset=np.array(loc_off, dtype=np.uint64),
                         parents=ind.parents, parents_offset=ind.parents_offset, metadata=md, metadata_offset=md_off)
+    # application-defined flag bits on some non-sample nodes (tskit reserves only the low 16 bits)
+    nf = t.nodes.flags
+    for u in range(t.nodes.num_rows):
+        if not (nf[u] & tskit.NODE_IS_SAMPLE) and u % 3 == 0:
+            nf[u] |= (1 << 17) | ((1 << 21) if u % 2 else 0)
+    t.nodes.flags = nf
     if node_md:
         t.nodes.metadata_schema = pj
         t.nodes.packset_metadata([pj.validate_and_encode_row({"name": f"n{u}", "k": int(u) % 3})
@@ -878,8 +907,29 @@ def tie_parents(ts):
 
 
 def setup(ctx):
+    import time
+
     from . import harness
     harness.setup_repo_env(ctx.work, jit=os.environ.get("VT_SESSION_NOJIT") != "1")
+    t0 = time.time()
+    import tsdate  # noqa: F401
+    ctx.extra.setdefault("phase_s", {})["import_tsdate"] = round(time.time() - t0, 1)
+
+
+class phase:
+    """with phase(ctx, "name"): ...  -- wall time per phase, echoed in the evidence"""
+
+    def __init__(self, ctx, name):
+        self.ctx, self.name = ctx, name
+
+    def __enter__(self):
+        import time
+        self.t0 = time.time()
+
+    def __exit__(self, *a):
+        import time
+        d = self.ctx.extra.setdefault("phase_s", {})
+        d[self.name] = round(d.get(self.name, 0) + time.time() - self.t0, 1)
 
 
 def with_migrations(seed):
